@@ -517,7 +517,7 @@ class List(list, base.Symbolic, pg_typing.CustomTyping):
         raise IndexError('list index out of range')
       return self.sym_inferred(index)
     elif isinstance(index, slice):
-      return [self[i] for i in range(*self._parse_slice(index))]
+      return [self[i] for i in range(*index.indices(len(self)))]
     else:
       raise TypeError(
           f'list index must be an integer. Encountered {index!r}.')
